@@ -28,6 +28,7 @@ NAMES = {
     "non-utf8": ["bad\xff", "caf\xe9.txt"],
     "spaces": ["my file", "tab\tname"],
     "tilde": ["x~", "~y~", "n.~z~"],
+    "long": ["L" * 250, "M" * 251, "N" * 252, "O" * 254, "P" * 255],
 }
 BSETS = {"none": [], "one": [1], "gap": [1, 3, 7], "large": [1, 2 ** 62], "many": list(range(1, 13))}
 
@@ -68,6 +69,8 @@ def gen_cases(tier, seed):
                 pre.append({"p": base + "/" + nm, "k": "f", "size": r.choice([0, 5, 3000]), "seed": r.randrange(1, 1 << 30), "segs": None})
             nums = BSETS[bset] if (nm == names[0] or r.random() < 0.5) else []
             for k in nums:
+                if len(b(nm)) + len(".~%d~" % k) > 255:
+                    continue    # such a backup name cannot exist (NAME_MAX)
                 pre.append({"p": "%s/%s.~%d~" % (base, nm, k), "k": "f", "size": 7, "seed": r.randrange(1, 1 << 30), "segs": None})
             seeded[nm] = nums
         steps = []
